@@ -32,6 +32,17 @@ CLAIMED = {
               "attribute caching, zip central directory written on close); faults are exceptions at write/assembly calls, "
               "not power loss; counterexamples are confirmed on the real file system before being reported"),
         design_ref="DESIGN.md §5 C08"),
+    "C09": dict(
+        engine="X",
+        technique="CrossHair symbolic execution of the real SimpleBatcher / subdivide_batches / generate_batches with symbolic sizes, ratios and a solver-chosen permutation stub",
+        text=("bounded model checking of the scheduling structure: for every n <= 7 (quick) / 9, batch size, validation ratio on "
+              "the p/20 grid, split mode, shuffle flag and permutation choice the yielded batches are an exact partition of the "
+              "training set, train/val are disjoint and covering and the reported counts equal the numbers yielded; "
+              "subdivide_batches/generate_batches for all n <= 40, max_batch <= 45 with unrealised symbolic ints"),
+        note=("trusts CrossHair/z3; the generator is a stub constrained by Generator.permutation's contract; bit-level seeded "
+              "determinism and autograd gradient equality are outside the claim; batch-mean == full-batch loss is decided by "
+              "the engine-S stage when present (see evidence)"),
+        design_ref="DESIGN.md §5 C09"),
     "C11": dict(
         engine="X",
         technique="CrossHair symbolic execution of the real Vector API with selector-chosen operations/index expressions; list-of-rows reference model and structural invariants as post-conditions",
